@@ -11,8 +11,10 @@ from .chooser import FixedChooser
 class SimServer(object):
     """Accepts connections on 127.0.0.1 and serves the device model over them (one at a time)."""
 
-    def __init__(self, cfg, rcvbuf=None, slow=0.0):
+    def __init__(self, cfg, rcvbuf=None, slow=0.0, frag=None):
         self.cfg = cfg
+        self.frag = frag          # cycle of piece sizes: the device's bytes leave in pieces that ignore packet boundaries, a pause after each
+        self.frag_i = 0
         self.env = simenv.Env(FixedChooser(), cfg)
         self.slow = slow
         self.lsock = socket.socket()
@@ -63,7 +65,22 @@ class SimServer(object):
                     if fr is None:
                         break
                     conn.settimeout(60)
-                    conn.sendall(fr)
+                    if self.frag:
+                        pend = bytearray(fr)
+                        while True:                      # everything that is ready goes out as one byte stream, cut by the size cycle
+                            more = env.dev.next_frame(env.clock.now)
+                            if more is None:
+                                break
+                            pend += more
+                        conn.setsockopt(socket.IPPROTO_TCP, socket.TCP_NODELAY, 1)
+                        while pend:
+                            n = self.frag[self.frag_i % len(self.frag)]
+                            self.frag_i += 1
+                            conn.sendall(bytes(pend[:n]))
+                            del pend[:n]
+                            time.sleep(0.002)
+                    else:
+                        conn.sendall(fr)
                     conn.settimeout(0.2)
         finally:
             try:
